@@ -49,7 +49,13 @@ class P(MetProp):
             k = rng.randint(4, 8)
         if op in ("rate", "bytes_rate") and not overlap and not longr and rng.random() < 0.6:
             rng_ns = rng.choice([S // 2, 3 * S // 2, 5 * S // 2, 750 * 10**6])      # per-second rates over a range that is not a whole number of seconds
-        start = T0 + rng.randrange(0, 4) * S
+        # one case in twelve sits next to the Unix epoch with a range reaching behind it: the first windows begin before 1970
+        # (a window bound is an instant, not an unsigned count of nanoseconds)
+        base = T0
+        if rng.random() < 0.085 and not longr:
+            base, off = 0, 0
+            rng_ns = rng.choice([4, 5, 6]) * S
+        start = base + rng.randrange(0, 4) * S
         end = start + k * step - rng.choice([0, 0, step // 2])
         grid1 = [start + j * step for j in range(k + 1) if start + j * step <= end]
         label_sets = rng.choice([[{"app": "a"}], [{"app": "a"}, {"app": "b"}], [{"app": "a", "lvl": "x"}, {"app": "a", "lvl": "y"}, {"app": "b", "lvl": "x"}]])
@@ -81,8 +87,12 @@ class P(MetProp):
         g = None
         if op in mgen.GROUPABLE and rng.random() < 0.4:
             g = grouping(rng.choice([["app"], ["lvl"], [], ["app", "nosuch"]]), without=rng.random() < 0.4)
-        lines = ("x",) if op not in ("bytes_over_time", "bytes_rate") else ("x", "xyz", "hello")
-        recs = m.records(rng.randint(8, 16) if (overlap or longr) else rng.randint(3, 12), start - off - rng_ns - S, (end - start) + rng_ns + 2 * S, label_sets, lines=lines, edge_ts=edges, numeric=numeric, values=values, tick=(5 * S if longr else S // 2))
+        lines = ("x",) if op not in ("bytes_over_time", "bytes_rate") else ("x", "xyz", "hello", "")
+        if op in ("bytes_over_time", "bytes_rate", "count_over_time") and rng.random() < 0.25:
+            lines = ("", "")          # blank lines only: samples of zero bytes are samples (bytes_over_time = 0, not absent)
+        rec_t0 = max(0, start - off - rng_ns - S)
+        edges = [t for t in edges if t >= 0]
+        recs = m.records(rng.randint(8, 16) if (overlap or longr) else rng.randint(3, 12), rec_t0, (end - rec_t0) + 2 * S - off, label_sets, lines=lines, edge_ts=edges, numeric=numeric, values=values, tick=(5 * S if longr else S // 2))
         if len(lines) > 1 or rng.random() < 0.5:
             pipe = [m.g.st_dropkeep("drop", ["msg"], [])]
         sel = sel_all(m)
